@@ -20,6 +20,7 @@ func ruleReadDBILoop(c *Check, rule string, forMarkers bool) {
 	raw := param(fn, 4)
 	nIter, nApp, nErrExit, nDone, bad := 0, 0, 0, 0, 0
 	flagNext := ""
+	loopFn := hostOf(fn, "(*github.com/PowerDNS/lmdb-go/lmdb.Cursor).Get") // the loop may live in an extracted helper
 	for i := range paths {
 		p := &paths[i]
 		gets := callsOf(p, "(*lmdb.Cursor).Get")
@@ -60,7 +61,7 @@ func ruleReadDBILoop(c *Check, rule string, forMarkers bool) {
 		switch {
 		case strings.HasPrefix(p.End, "backedge:"):
 			// the cursor operation of the next Get: the loop-carried uint
-			fl := backedgeVal(p, loopPhiOfType(fn, func(t types.Type) bool { b, ok := t.Underlying().(*types.Basic); return ok && b.Kind() == types.Uint }))
+			fl := backedgeVal(p, loopPhiOfType(loopFn, func(t types.Type) bool { b, ok := t.Underlying().(*types.Basic); return ok && b.Kind() == types.Uint }))
 			if fl != "" {
 				flagNext = fl
 			}
@@ -111,7 +112,7 @@ func ruleReadDBILoop(c *Check, rule string, forMarkers bool) {
 	// cursor positions: First, then Next
 	first, _ := c.constValue2("github.com/PowerDNS/lmdb-go/lmdb", "First")
 	next, _ := c.constValue2("github.com/PowerDNS/lmdb-go/lmdb", "Next")
-	init := phiInitOf(fn, loopPhiOfType(fn, func(t types.Type) bool { b, ok := t.Underlying().(*types.Basic); return ok && b.Kind() == types.Uint }))
+	init := phiInitOf(loopFn, loopPhiOfType(loopFn, func(t types.Type) bool { b, ok := t.Underlying().(*types.Basic); return ok && b.Kind() == types.Uint }))
 	c.Expect(init == "const:"+first && flagNext == "const:"+next && first != "" && next != "", rule, fnReadDBI+"/cursor-order",
 		"the cursor starts at lmdb.First and every continuing iteration uses lmdb.Next",
 		fmt.Sprintf("cursor flag starts as %s (lmdb.First=%s) and continues with %s (lmdb.Next=%s)", init, first, flagNext, next), pos)
